@@ -17,7 +17,7 @@ func init() { register("C07", checkC07) }
 func checkC07(c *an.Ctx) {
 	c.Rule("C07.1", "execute table (= C06.3) and hook rows of the Run trace (a failing after command does not make Run return an error; a failing before command does) plus: the value stored in Task.ExitCode is the first result of IsExitStatus on that very error, through width- and sign-preserving conversions only; Execute and IsExitStatus hand the interpreter's verdict through unchanged")
 	c.Rule("C07.2", "deferred reset (E2/E4): ExitCode := 0 is executed iff the task is neither errored nor skipped; ExitCode, Errored and Skipped have no other writers than the job walk, the skip branch, the reset and constructors")
-	c.Rule("C07.3", "error chain (E7): the error of the job walk reaches main through propagating call sites only (Run → runTask / runStage → graph error → Schedule → runPipeline → runTarget → actions → app.Run → run → main); main exits non-zero exactly on a non-nil error; Schedule reads the graph error after a synchronous wait for the stage goroutines")
+	c.Rule("C07.3", "error chain (E7): the error of the job walk reaches main through propagating call sites only (Run → runTask / runStage → graph error → Schedule → runPipeline → runTarget → actions → app.Run → run → main); main exits non-zero exactly on a non-nil error; Schedule reads the graph error after a synchronous wait for the stage goroutines; no error type of the module is a cli.ExitCoder whose code can be 0 (urfave/cli exits the process itself with that code)")
 	c.Rule("C07.4", "sequential targets (E2/E3): every loop over the command-line arguments that runs targets does so by synchronous calls in slice order and returns on the first error")
 	c.Rule("C07.5", "the output layer cannot fail a command (io.Writer contract, = C19.1): every Write of pkg/output reports the full length on success — a short count from a decorator travels up through the MultiWriters into os/exec's copy of the command's output and comes back from the interpreter as an error that is not an exit status, which marks a task errored although all its commands exited 0")
 	c.Rule("C07.6", "a stage's failure is forgiven only by the stage (E5 provenance): what internal/config stores into Stage.AllowFailure is the stage definition's allow_failure as decoded (or a constant) — the scheduler drops every error of a stage that allows failure, interrupted and timed-out runs included, so a flag inherited from the task (which tolerates exit statuses only) turns those into a pipeline reported as successful")
@@ -310,6 +310,7 @@ func errorChainToMain(c *an.Ctx, r *runnerRoles, rule string) {
 		c.Und(rule, "scheduler:runner-caller", token.NoPos, "cannot find Scheduler.Schedule and the function of pkg/scheduler that invokes Runner.Run")
 		return
 	}
+	exitCoders(c, rule)
 	exempt := map[string]string{}
 	// watch mode is not a CLI target: inside internal/watch a failed run is logged and the watcher keeps
 	// serving (C20.5); a watcher's own failure is logged by the goroutine the watch command starts for it
@@ -831,4 +832,55 @@ func dispatchers(p *an.Prog) map[*ssa.Function]bool {
 		}
 	}
 	return out
+}
+
+// exitCoders (library summary, urfave/cli v2): an error that also has a method `ExitCode() int` is a cli.ExitCoder;
+// App.Run / Command.Run hand such an error to HandleExitCoder, which prints it and calls os.Exit(err.ExitCode())
+// itself — before main sees it. An error type of the module with that method therefore decides the process status
+// on its own: where its ExitCode can be 0 (a failure that was not an exit status), a failed target exits 0.
+func exitCoders(c *an.Ctx, rule string) {
+	n := 0
+	for _, fn := range c.P.Funcs {
+		if !an.InModule(fn) || fn.Blocks == nil || fn.Name() != "ExitCode" || fn.Signature.Recv() == nil {
+			continue
+		}
+		sig := fn.Signature
+		if sig.Params().Len() != 0 || sig.Results().Len() != 1 {
+			continue
+		}
+		if b, ok := sig.Results().At(0).Type().Underlying().(*types.Basic); !ok || b.Kind() != types.Int {
+			continue
+		}
+		// the receiver type is an error
+		recv := sig.Recv().Type()
+		isErr := false
+		for _, t := range []types.Type{recv, types.NewPointer(an.Deref(recv))} {
+			ms := types.NewMethodSet(t)
+			for i := 0; i < ms.Len(); i++ {
+				m := ms.At(i).Obj()
+				if m.Name() == "Error" {
+					if msig, ok := m.Type().(*types.Signature); ok && msig.Params().Len() == 0 && msig.Results().Len() == 1 {
+						isErr = true
+					}
+				}
+			}
+		}
+		if !isErr {
+			continue
+		}
+		n++
+		nonZero := true
+		for _, ret := range an.Returns(fn) {
+			for _, src := range an.Sources(an.RetVal(ret, 0)) {
+				k, ok := an.ConstInt(src)
+				if !ok || k == 0 {
+					nonZero = false
+				}
+			}
+		}
+		c.Check(nonZero, rule, an.Short(fn)+":exit-coder", fn.Pos(), "an ExitCoder of the module whose code is a non-zero constant", fmt.Sprintf("%s makes its receiver a cli.ExitCoder: urfave/cli exits the process itself with whatever it returns, and nothing shows that this is non-zero for every failure — a failed target can exit 0", an.Short(fn)))
+	}
+	if n == 0 {
+		c.OK(rule, "module:exit-coders", token.NoPos, "no error type of the module implements cli.ExitCoder: the process status is decided in main")
+	}
 }
